@@ -223,9 +223,10 @@ pub struct YieldPlan;
 
 fn gen_shape(rng: &mut Rng, depth: u64) -> Value {
     if depth == 0 || rng.chance(1, 4) {
-        return json!({"op": "src", "parts": rng.range(1, 3)});
+        // a quarter of the leaves are cooperative by themselves (like DataFusion's own sources)
+        return json!({"op": "src", "parts": rng.range(1, 3), "coop": rng.chance(1, 4)});
     }
-    match rng.below(10) {
+    match rng.below(12) {
         0 | 1 => json!({"op": "coalesce", "in": gen_shape(rng, depth - 1)}),
         2 => json!({"op": "filter", "pass": rng.chance(1, 2), "in": gen_shape(rng, depth - 1)}),
         3 => json!({"op": "proj", "in": gen_shape(rng, depth - 1)}),
@@ -233,6 +234,7 @@ fn gen_shape(rng: &mut Rng, depth: u64) -> Value {
         5 => json!({"op": "hash", "n": rng.range(1, 4), "in": gen_shape(rng, depth - 1)}),
         6 => json!({"op": "limit", "in": gen_shape(rng, depth - 1)}),
         7 => json!({"op": "union", "l": gen_shape(rng, depth - 1), "r": gen_shape(rng, depth - 1)}),
+        10 | 11 => json!({"op": "union", "l": gen_shape(rng, depth - 1), "r": gen_shape(rng, depth - 1)}),
         8 => json!({"op": "topk", "in": gen_shape(rng, depth - 1)}),
         _ => json!({"op": "spm", "in": gen_shape(rng, depth - 1)}),
     }
@@ -256,7 +258,8 @@ fn build_shape(v: &Value, table: &[Vec<crate::data::Step>], sources: &mut Vec<Ar
             let n = (v.get("parts")?.as_u64()? as usize).clamp(1, 4);
             // n partitions: the table's scripts repeated/cut to n
             let scripts: Vec<Vec<crate::data::Step>> = (0..n).map(|i| table[i % table.len()].clone()).collect();
-            let src = Arc::new(SimSourceExec::with_ordering("endless", scripts, None, true));
+            let coop = v.get("coop").and_then(|x| x.as_bool()).unwrap_or(false);
+            let src = Arc::new(SimSourceExec::with_ordering("endless", scripts, None, true).with_cooperative(coop));
             sources.push(Arc::clone(&src));
             src
         }
